@@ -1,9 +1,10 @@
 import CedarVerif.Lemmas.TCAccept
 /-
-Lemmas for C04, part 9: `upsert_entities` for batches of ANY length whose uids are PAIRWISE DISTINCT.
-(With a repeated uid the code leaves stale ancestors — see `upsert_multi_repeated_uid_counterexample` in
-Thm/C04.lean; the step `UInv.step_some` needs `u ∉ R` exactly where the second overwrite of `u` would strip
-the *new* parents of `u` instead of its original ancestors.)
+Lemmas for C04, part 9: the second loop of `upsert_entities` (`upsertApply`) for batches of ANY length whose
+uids are PAIRWISE DISTINCT — which the repaired code guarantees by deduping the collection first (TCDedup.lean).
+(With a repeated uid the loop leaves stale ancestors — the defect of the code before /repo's fix, see
+`upsert_multi_repeated_uid_counterexample` in Thm/C04.lean; the step `UInv.step_some` needs `u ∉ R` exactly
+where the second overwrite of `u` would strip the *new* parents of `u` instead of its original ancestors.)
 `UInv s0 R s`: relation between the original store `s0` (satisfying the invariant), the uids `R`
 overwritten/inserted so far, and the intermediate store `s`.
 -/
@@ -334,12 +335,12 @@ theorem upsert_distinct_pre (s : Store α) (es : List (α × Node α)) (hinv : S
 /-- `upsert_entities` (ComputeNow), batch of any length with pairwise distinct uids and no indirect
     ancestors, on a store satisfying the invariant: accepted iff the spec's parent graph is acyclic, then
     the invariant is re-established with the spec's parent graph; otherwise `cycle` -/
-theorem upsertEntities_distinct (s : Store α) (es : List (α × Node α)) (hinv : StoreInv s) (hp : PureBatch es)
+theorem upsertApply_distinct (s : Store α) (es : List (α × Node α)) (hinv : StoreInv s) (hp : PureBatch es)
     (hnd : (es.map (·.1)).Nodup) :
     ((∀ x, ¬ Reach (shape (es.foldl upsertOne (s, [])).1) x x) →
-      ∃ s', upsertEntities .compute s es = .ok s' ∧ StoreInv s' ∧
+      ∃ s', upsertApply .compute s es = .ok s' ∧ StoreInv s' ∧
         parentGraph s' = specUpsert (parentGraph s) es) ∧
-    (∀ err, upsertEntities .compute s es = .error err →
+    (∀ err, upsertApply .compute s es = .error err →
       err = .cycle ∧ ∃ x, Reach (shape (es.foldl upsertOne (s, [])).1) x x) := by
   obtain ⟨p1, p3⟩ := upsert_distinct_pre s es hinv hp hnd
   have hf := upsertFold_frame es (s, []) (frame_init s)
@@ -347,11 +348,11 @@ theorem upsertEntities_distinct (s : Store α) (es : List (α × Node α)) (hinv
   · intro hacyc
     obtain ⟨s', hok, hinv', hpg⟩ := repair_establishes _ _ p1 hacyc (hf.untouched_complete hinv) p3
     refine ⟨s', ?_, hinv', by rw [hpg, pg_upsertFold]⟩
-    unfold upsertEntities
+    unfold upsertApply
     simp only [finish, if_true]
     exact hok
   · intro err h
-    unfold upsertEntities at h
+    unfold upsertApply at h
     simp only [finish, if_true] at h
     obtain ⟨r1, _, r3⟩ := repairTc_sound _ (touchPass (es.foldl upsertOne (s, [])).1 (es.foldl upsertOne (s, [])).2) _ p1
     have := r3 err h
